@@ -176,5 +176,5 @@ def run_shard(ctx):
 
 
 def replay(case, ctx):
-    CTX[0] = None
+    CTX[0] = ctx            # known-finding signatures are skipped, anything else is raised
     run_trace(ID, case, [monitor])
